@@ -639,3 +639,7 @@
 (declare-fun set_fold (Func Slice cty.Type Int) VSet)
 (assert (forall ((f Func) (a Slice) (t cty.Type)) (! (= (set_fold f a t 1) (cset_of (val_at a 0) t)) :pattern ((set_fold f a t 1)))))
 (assert (forall ((f Func) (a Slice) (t cty.Type) (k Int)) (! (=> (>= k 2) (= (set_fold f a t k) (vs_op f (set_fold f a t (- k 1)) (cset_of (val_at a (- k 1)) t)))) :pattern ((set_fold f a t k)))))
+; ---- generic sets (cty/set): answers of the membership rules (uninterpreted functions of the rules value
+; ---- and the arguments)
+(declare-fun r_hash (Any Any) Int)
+(declare-fun r_equiv (Any Any Any) Bool)
